@@ -152,7 +152,13 @@ type cacheModel struct {
 	// entry: the expiry task deletes the data and removes "the key's timer" in two steps, and a store
 	// in between has its fresh timer removed (class neverExpiresAfterExpiry); only to NAME a history
 	upperRelaxed bool
-	steps        int // number of step evaluations (budget of the linearizability search)
+	// anyVictim / early (cacheRecency, only to NAME a history that the strict model refuses; never with
+	// relaxed or upper): anyVictim: an insertion that exceeds the limit evicts SOME entry, not
+	// necessarily the least recently used one; early: additionally every use that touches the recency
+	// order (insertion, re-set, hit) may evict one more entry although the limit is not exceeded
+	anyVictim bool
+	early     bool
+	steps     int // number of step evaluations (budget of the linearizability search)
 }
 
 const immortal = time.Duration(1<<63 - 1)
@@ -180,6 +186,35 @@ func markMayLoseTimer(ops []cOp) {
 			}
 		}
 	}
+}
+
+// useVariants: the states after a use that left the entries ents (most recently used first) behind.
+// Strict model: ents cut to the limit.  Naming variants: see cacheModel.anyVictim / early.
+func (m *cacheModel) useVariants(ents []cEntry, ghost uint32) []cState {
+	var bases [][]cEntry
+	switch {
+	case m.limit <= 0 || len(ents) <= m.limit:
+		bases = [][]cEntry{ents}
+	case !m.anyVictim && !m.early:
+		bases = [][]cEntry{ents[:m.limit]}
+	default:
+		for len(ents) > m.limit+1 {
+			ents = ents[:len(ents)-1]
+		}
+		for j := range ents {
+			bases = append(bases, without(ents, j))
+		}
+	}
+	var res []cState
+	for _, b := range bases {
+		res = append(res, cState{ents: b, ghost: ghost})
+		if m.early {
+			for j := range b {
+				res = append(res, cState{ents: without(b, j), ghost: ghost})
+			}
+		}
+	}
+	return res
 }
 
 func without(ents []cEntry, drop int) []cEntry {
@@ -244,7 +279,7 @@ func (m *cacheModel) step(st cState, in cIn, out cOut) []cState {
 				if idx < 0 || ents[idx].val != out.val {
 					continue
 				}
-				res = append(res, cState{ents: append([]cEntry{ents[idx]}, without(ents, idx)...), ghost: st.ghost})
+				res = append(res, m.useVariants(append([]cEntry{ents[idx]}, without(ents, idx)...), st.ghost)...)
 			} else {
 				if idx >= 0 {
 					continue
@@ -254,7 +289,7 @@ func (m *cacheModel) step(st cState, in cIn, out cOut) []cState {
 		case cMaybeGet:
 			res = append(res, cur) // shared another Take's result without touching the cache
 			if idx >= 0 && ents[idx].val == out.val {
-				res = append(res, cState{ents: append([]cEntry{ents[idx]}, without(ents, idx)...), ghost: st.ghost})
+				res = append(res, m.useVariants(append([]cEntry{ents[idx]}, without(ents, idx)...), st.ghost)...)
 			}
 		case cSet:
 			ne := cEntry{key: in.key, val: in.val, setAt: in.tCall, life: guaranteedLife(in.expire), dead: in.tRet + upperLife(in.expire)}
@@ -266,7 +301,7 @@ func (m *cacheModel) step(st cState, in cIn, out cOut) []cState {
 				if m.relaxed >= 1 && (old.racy || in.tRet-old.setAt >= old.life) {
 					ne.racy = true
 				}
-				res = append(res, cState{ents: append([]cEntry{ne}, without(ents, idx)...), ghost: st.ghost &^ gbit})
+				res = append(res, m.useVariants(append([]cEntry{ne}, without(ents, idx)...), st.ghost&^gbit)...)
 			} else {
 				if m.relaxed >= 2 && st.ghost&gbit != 0 {
 					ne.racy = true
@@ -283,9 +318,13 @@ func (m *cacheModel) step(st cState, in cIn, out cOut) []cState {
 							g |= uint32(1) << uint(ev.key%32)
 						}
 					}
+					if m.anyVictim || m.early {
+						res = append(res, m.useVariants(n, g)...)
+						continue
+					}
 					n = n[:m.limit]
 				}
-				res = append(res, cState{ents: n, ghost: g})
+				res = append(res, m.useVariants(n, g)...)
 			}
 		case cDel:
 			if idx >= 0 {
